@@ -278,6 +278,32 @@ def rule_r3(ctx) -> List[R.Inst]:
                                 f"'{sl_txt}'", construct=unparse(st[0])))
         else:
             insts.append(R.undec(rid, key, file_h, st[0].lineno, f"table key '{sl_txt}' not recognised"))
+    # ---- (b2) sibling tests: '#BPMxx' and '#WAVxx' keys are recognised with the same case normalisation
+    pref = {}
+    for n in walk_no_nested(hdr.node):
+        if isinstance(n, ast.Call) and call_name(n) == "startswith" and n.args and isinstance(n.args[0], ast.Constant) and \
+                n.args[0].value in (b"BPM", b"WAV"):
+            recv = n.func.value
+            norm = [c.func.attr for c in ast.walk(recv) if isinstance(c, ast.Call) and isinstance(c.func, ast.Attribute) and
+                    c.func.attr in ("upper", "lower", "casefold")]
+            if isinstance(recv, ast.Name):
+                ds = local_defs(hdr.node, recv.id)
+                if len(ds) == 1:
+                    norm += [c.func.attr for c in ast.walk(ds[0]) if isinstance(c, ast.Call) and isinstance(c.func, ast.Attribute) and
+                             c.func.attr in ("upper", "lower", "casefold")]
+            pref[n.args[0].value] = (sorted(set(norm)), n)
+    if set(pref) == {b"BPM", b"WAV"}:
+        if pref[b"BPM"][0] == pref[b"WAV"][0]:
+            insts.append(R.ok(rid, "table:prefix-tests", file_h, pref[b"BPM"][1].lineno,
+                              idiom=f"both header families matched after {pref[b'BPM'][0] or 'no'} normalisation"))
+        else:
+            odd = b"WAV" if len(pref[b"WAV"][0]) < len(pref[b"BPM"][0]) else b"BPM"
+            insts.append(R.viol(rid, "table:prefix-tests", file_h, pref[odd][1].lineno,
+                                f"'#BPMxx' keys are matched after {pref[b'BPM'][0] or 'no'} normalisation but '#WAVxx' keys after "
+                                f"{pref[b'WAV'][0] or 'none'}: a file that writes '#{odd.decode().lower()}…' loses those definitions "
+                                f"silently (objects then carry no sample / tempo)", construct=unparse(pref[odd][1])))
+    else:
+        insts.append(R.undec(rid, "table:prefix-tests", file_h, hdr.node.lineno, f"prefix tests found: {sorted(k.decode() for k in pref)}"))
     # ---- (c) lane -> column
     cfg = [p for p in params_of(fn.node) if "config" in p]
     cols = local_defs(loop, "column")
@@ -831,7 +857,7 @@ def rule_r10(ctx) -> List[R.Inst]:
 SPECS = [
     RuleSpec("C04.R1", rule_r1, 5, "A10", "five channel layouts: injective, contiguous, roles on 02/03/08, equal to the format table"),
     RuleSpec("C04.R2", rule_r2, 6, "A7", "role names used by reader and writer are values of _HEADER"),
-    RuleSpec("C04.R3", rule_r3, 8, "A8", "dispatch: hex tempo / #BPMxx lookup / lane column / LN marker pairing on one lane / #WAV sample"),
+    RuleSpec("C04.R3", rule_r3, 9, "A8", "dispatch: hex tempo / #BPMxx lookup / lane column / LN marker pairing on one lane / #WAV sample"),
     RuleSpec("C04.R4", rule_r4, 7, "A1", "header fields: same field read and written; other headers retained; initial tempo at 0"),
     RuleSpec("C04.R5", rule_r5, 5, "A8", "objects timed by the un-reseated map from sorted changes at 0 ms; tempo list from the reseated map"),
     RuleSpec("C04.R6", rule_r6, 1, "A5", "LN pairing must not depend on the order of the lines"),
